@@ -178,6 +178,14 @@ def corpus():
         "shared-cond": [L.add(L.inc(1), L.inc(3)), cond(L.inc(1), L.inc(1), 0)],
         "shared-map-partial": [L.pair(L.mklist(2), L.mklist(3)), map_(L.pair.partial(L.mklist(2)), L.mklist(2))],
         "shared-later-first": [seq([L.inc(1), L.inc(1)]), L.add(L.twice(2), b=L.inc(1))],
+        # a failing term absorbed at its first use and demanded again, later, under the same parent job
+        "shared-failing-seq": seq([catch(L.raiser("V", 60), ValueError, L.rec_zero), L.raiser("V", 60)]),
+        "shared-failing-seq-arg": seq([catch(L.raiser("K", 61), Exception, L.rec_zero), L.inc(L.raiser("K", 61)), 5]),
+        "shared-failing-cond": cond(catch(L.raiser("L", 62), L.LibError, L.rec_zero) == 0, L.raiser("L", 62), 1),
+        "shared-failing-catch_all": seq([catch_all([L.raiser("V", 63), L.inc(1)], ValueError, L.rec_count), L.raiser("V", 63)]),
+        "shared-failing-recover-partial": catch(L.raiser("V", 64), ValueError, L.pair.partial(L.raiser("V", 64))),
+        "shared-failing-thread": seq([const(0, fork_thread(L.fail_after(1, "S"))), L.fail_after(1, "S")]),
+        "shared-failing-op": seq([catch(L.mklist(2)[5], IndexError, L.rec_zero), L.mklist(2)[5]]),
         "shared-failing": [L.pair(L.raiser("V", 50), L.inc(1)), catch(seq([L.raiser("V", 50), L.raiser("V", 50)]), ValueError, L.rec_zero)],
         "shared-in-task": L.identity([L.add(L.inc(1), L.rsum(2)), seq([L.inc(1), L.inc(1)])]) if hasattr(L, "identity") else
         identity([L.add(L.inc(1), L.rsum(2)), seq([L.inc(1), L.inc(1)])]),
